@@ -303,12 +303,23 @@ def run(ctx):
             file_sr = FILE_SRS[fi]
         else:
             file_sr = rng.choice([rng.choice(ODD_SRS), rng.choice(ODD_SRS), rng.randrange(1000, 400001), rng.choice(FILE_SRS)])
+        if len(FILE_SRS) <= fi < len(FILE_SRS) + 4:
+            file_sr = [12500, 50000, 25000, 200000][fi - len(FILE_SRS)]   # int(1 / (1 / sr)) == sr - 1 for these
         te = rng.choice([1.0, 1.0, 10.0, 0.5])
         if te == 0.5 and file_sr % 2:
             te = 1.0
         channels = rng.choice([1, 2, 3])
         dur = rng.choice([0.5, 1.0, 3.0, 3.5]) if not ctx.thorough else rng.choice([0.5, 1.0, 3.0, 5.0, 10.0])
+        if len(FILE_SRS) <= fi < len(FILE_SRS) + 4:
+            te, dur = 1.0, max(dur, 4.0 if file_sr < 100000 else 3.0)
         n_frames = int(dur * file_sr) + rng.choice([0, 1, 7])
+        if fi % 2:
+            # lengths whose duration does not survive a round trip through seconds: (n / sr) * sr rounds to just below n,
+            # so code that re-derives the frame count from recording.duration loses the last frame
+            rsr = int(round(file_sr * te))
+            hostile = [n for n in range(n_frames, n_frames + 400) if (n / rsr) * rsr < n]
+            if hostile:
+                n_frames = rng.choice(hostile[:20])
         seed = rng.getrandbits(20)
         base = {"file_sr": file_sr, "te": te, "channels": channels, "n_frames": n_frames, "seed": seed}
         ctx.case(("recording", file_sr, te, channels), dict(base, kind="recording"), nontrivial=False)
@@ -344,10 +355,14 @@ def run(ctx):
             judge_resample(ctx, wav, target, dict(base, kind="resample", target=target))
         # spectrograms: whole and fractional numbers of samples per hop
         for _ in range(ctx.scale(5, 8)):
-            kind = rng.choice(["whole", "fractional", "fractional", "decimal"])
+            kind = rng.choice(["whole", "fractional", "fractional", "decimal", "sparse"])
             if kind == "whole":
                 nper = rng.choice([64, 128, 256, 512, 1024]); hopn = rng.choice([nper // 4, nper // 2, nper])
                 window, hop = nper / real_sr, hopn / real_sr
+            elif kind == "sparse":
+                # frames further apart than they are long (a short window every so often): hop > window
+                nper = rng.choice([64, 128, 256]); window = nper / real_sr
+                hop = rng.choice([1.5 * nper, 2 * nper, 100 + nper, 6.25 * nper]) / real_sr
             elif kind == "fractional":
                 window = rng.choice([0.004, 0.008, 0.0123, 0.02]); hop = rng.choice([0.0033, 0.001, 0.0025, window / 3])
             else:
